@@ -23,6 +23,7 @@
 import concurrent.futures
 import json
 import os
+import re
 import subprocess
 
 import vlib
@@ -31,7 +32,10 @@ PID = "C07"
 TRACE_ACTIONS = ("TraceStart", "TraceParseOk", "TraceRetErr", "TraceRetOk", "TraceRender", "TraceFinish", "TraceAccept")
 UNIVERSE_PRIORITY = {"tok20.top": 0, "tok20.body": 0, "tok31.body": 1, "tok31.raw": 1, "tok31.top": 1, "fam": 2, "proj": 2, "mut-sys": 3,
                      "mut": 4, "replay": 5}
-FAMILIES = ("nest", "nestraw", "nestsolo", "place", "cyc", "selfty")
+FAMILIES = ("nest", "nestraw", "nestsolo", "place", "cyc", "selfty", "text", "entry")
+# SyltPipeline's text family spells a 2-, 3-, 4-byte character as an ASCII placeholder; the recorder replaces them (c07.rs project_of)
+TEXT_PLACEHOLDERS = (("@2@", "\u00e9"), ("@3@", "\u65e5"), ("@4@", "\U0001F600"))
+SELF_ARITH = ("neg", "addself", "subself", "mulself", "divself", "lessself")
 
 
 class Run:
@@ -268,6 +272,13 @@ def fam_cell(rec, key):
     if fam == "cyc":
         clean = parts[4] == "none" or (parts[1] == "self" and parts[4] == "othersonly")      # no file has a syntax error
         return ("clean" if clean else "broken") + "/" + key
+    if fam == "text":
+        valid = parts[1] in ("string", "comment") and parts[7] == "none"       # a valid program / one with an error somewhere
+        return ("valid" if valid else "lexerr" if parts[1].startswith("err") else "typeerr") + "/" + key
+    if fam == "entry":
+        return parts[1] + "/" + key
+    if fam == "selfty":
+        return ("tuple-arith" if fam_site(rec["id"]) == "selfty-tuple-arith" else "any") + "/" + key
     return "any/" + key
 
 
@@ -278,7 +289,10 @@ FAMILY_GUARDS = {
     "nestsolo": (("ok/ok-compile", "ok/", 0.95), ("err/err-compile", "err/", 0.95)),
     "place": (("decl/err-compile", "decl/", 0.95), ("inner/err-parse", "inner/", 0.95)),
     "cyc": (("broken/err-parse", "broken/", 0.95), ("clean/ok-compile", "clean/", 0.95)),
-    "selfty": (("any/err-compile", "any/", 0.80),),
+    "selfty": (("any/err-compile", "any/", 0.75),),
+    "text": (("valid/ok-compile", "valid/", 0.95), ("typeerr/err-compile", "typeerr/", 0.95), ("lexerr/err-parse", "lexerr/", 0.95)),
+    "entry": (("main/ok-compile", "main/", 0.25), ("fromuse/ok-compile", "fromuse/", 0.20), ("both/ok-compile", "both/", 0.25),
+              ("none/err-compile", "none/", 0.70), ("fromas/err-compile", "fromas/", 0.70)),
 }
 
 
@@ -291,6 +305,11 @@ def fam_site(case_id):
     """construct class of a family member, used where a crash site would stand in the signature of a hang:
     nest-if | nest-case | nest-fn | nest-block | nest-expr, or the family name"""
     parts = case_id.split(":")
+    if parts[0] == "selfty":
+        # a tuple that holds itself and nothing else (makers p...) under an operator that walks tuples is known finding F29
+        if parts[1].startswith("p"):
+            return "selfty-tuple-arith" if parts[2] in SELF_ARITH else "selfty-tuple"
+        return "selfty"
     if parts[0] != "nest":
         return parts[0]
     classes = [NEST_CLASS.get(w, "expr") for w in parts[1].split("/")]
@@ -347,6 +366,14 @@ def family_guards(run):
 
 def case_of(label, rec, case):
     if case is not None:
+        if case.get("kind") == "fam:text":
+            # what was compiled, not its ASCII spelling: minimisation and replay work on the real text
+            files = {}
+            for name, text in case["files"].items():
+                for ph, ch in TEXT_PLACEHOLDERS:
+                    text = text.replace(ph, ch)
+                files[name] = text
+            case = dict(case, files=files, kind="fam:text-materialised")
         return case
     return {"id": rec["id"], "kind": "tok", "base": "", "files": {"main.sy": rec["input"]}, "main": "main.sy",
             "no_std": True, "corpus": False}
@@ -409,7 +436,12 @@ def add_verdicts(run, wd, verdicts):
         members.sort(key=prio)
         label, rec, rej, case = members[0]
         orig = case_of(label, rec, case)
-        rep = minimise(wd, orig, gi)
+        rep = None
+        provisional = "C07|%s|%s|unminimised:%s" % (why, site or "-", rec["id"])
+        is_known = rec.get("kind", "").startswith("fam:") and any(
+            k.get("signature") == provisional or (k.get("signature_re") and re.match(k["signature_re"], provisional)) for k in verdicts.known)
+        if not is_known:        # (a known finding of a family is recognised by class and construct: no need to spend a minute minimising it)
+            rep = minimise(wd, orig, gi)
         if rep is not None and rep["class"] == why:
             skel, mini, site_file = rep["skeleton"], rep["case"], rep["site_file"]
         elif why in ("truncated", "protocol", "err-without-errors", "ok-without-output", "empty-rendering", "finish-before-all-rendered"):
